@@ -179,7 +179,15 @@ let handle_reparse (toks : string list) : string =
   String.concat "|" (List.map render_stripped cmds) ^ "#" ^ String.concat "|" (List.map render_stripped again)
 
 (* ---- interpreter layer ---- *)
-let str_of_num (x : num) : string = if is_nan x then "nan" else utf8_of_cps (num_display x)
+(* the model's own decimal rendering, memoised: the same stack elements are rendered again after every step *)
+let num_memo : (num, string) Hashtbl.t = Hashtbl.create 4096
+let str_of_num (x : num) : string =
+  if is_nan x then "nan"
+  else match Hashtbl.find_opt num_memo x with
+    | Some t -> t
+    | None -> let t = utf8_of_cps (num_display x) in
+              if Hashtbl.length num_memo > 200000 then Hashtbl.reset num_memo;
+              Hashtbl.add num_memo x t; t
 let nstr (x : n) : string = ZZ.to_string (zz_of_n x)
 let render_state (s : state) : string =
   let stk = List.filter (fun (_, l) -> l <> []) s.stacks in
